@@ -496,6 +496,46 @@ fn cli_block(ctx: &Ctx) {
             cases.push((keymode, if in_counter { "bitflip-counter-field".into() } else { "bitflip".into() }, x, ai));
         }
     }
+    // history: an earlier decrypt to the same -o path was killed half way (its input stalled); a later decrypt of an
+    // authentic, untouched file to that path must still give exactly its plaintext
+    {
+        use crate::cli::Stdin;
+        let long_pt = rng.bytes(65536 * 3 + 5);
+        let long_pf = refspec::encode_pass_file(pw.as_bytes(), &rng.arr32(), &long_pt, &refspec::natural_chunking(long_pt.len(), 65536));
+        let long_kf = mk_key_file(&alice.sk, &bob.pk, &long_pt, &refspec::natural_chunking(long_pt.len(), 65536), &mut rng);
+        let hist_cases: Vec<(&str, Vec<&str>, Vec<&str>, &str, &Vec<u8>, &Authentic)> = vec![
+            ("password", vec!["password", "decrypt", "-o", "hist.out", "--env-pass"], vec!["password", "decrypt", "hist-small.ktl", "-o", "hist.out", "--env-pass"], pw.as_str(), &long_pf, &pf),
+            ("key", vec!["decrypt", "-t", "bob", "-o", "hist.out", "-k", "kr.txt", "--env-pass"], vec!["decrypt", "hist-small.ktl", "-t", "bob", "-o", "hist.out", "-k", "kr.txt", "--env-pass"], "bpw", &long_kf.bytes, &kf),
+        ];
+        for (mode, first_args, second_args, p, stalled_input, small) in hist_cases {
+            let _ = std::fs::remove_file(wd.file("hist.out"));
+            for e in std::fs::read_dir(&wd.path).unwrap().flatten() {
+                if e.file_name().to_string_lossy().starts_with("hist.out") {
+                    let _ = std::fs::remove_file(e.path());
+                }
+            }
+            wd.write("hist-small.ktl", &small.bytes);
+            // two and a half chunks arrive, then the source stalls; the watchdog kills the process (SIGKILL)
+            let mut sizes = vec![stalled_input.len() * 2 / 3];
+            sizes.extend(std::iter::repeat(0).take(40));
+            let mut c = Cmd::new(&wd.path, &first_args).pass(p).stdin(Stdin::Dribble(stalled_input.clone(), sizes));
+            c.timeout = std::time::Duration::from_millis(2500);
+            let killed = c.run();
+            let left = std::fs::read(wd.file("hist.out")).map(|b| b.len()).unwrap_or(0);
+            let o = Cmd::new(&wd.path, &second_args).pass(p).run();
+            ctx.eval();
+            let got = std::fs::read(wd.file("hist.out")).unwrap_or_default();
+            if killed.exit != Exit::Timeout {
+                ctx.seen("history lane: the first run ended by itself (not a crash history)");
+            }
+            if o.exit == Exit::Code(0) && got == small.plaintext {
+                ctx.seen(&format!("cli {} after an interrupted earlier run to the same path: exactly the plaintext", mode));
+                ctx.distinct(&format!("cli|history|{}", mode));
+            } else {
+                ctx.violation(&format!("C03:cli:{}:authentic-file-after-an-interrupted-run-does-not-give-exactly-its-plaintext", mode), json!({"first_run": killed.exit.describe(), "bytes_left_by_first_run": left, "second_run_exit": o.exit.describe(), "stderr": o.stderr_s(), "output_len": got.len(), "plaintext_len": small.plaintext.len()}));
+            }
+        }
+    }
     let auths = [kf.clone(), pf.clone(), big_pf.clone()];
     let wdp = &wd;
     par_for(cases.len(), crate::util::ncpu(), |i| {
@@ -556,6 +596,8 @@ pub fn run(ctx: &Ctx) {
         cli_block(ctx);
     }
     ctx.require("cli key extend: rejected", 3);
+    ctx.require("cli password after an interrupted earlier run", 1);
+    ctx.require("cli key after an interrupted earlier run", 1);
     ctx.require("cli password extend: rejected", 6);
     ctx.require("cli password truncate: rejected", 4);
     ctx.require("small truncate", 100);
